@@ -57,6 +57,9 @@ package auth
 //@
 //@   -- C18: no panic under arbitrary backend answers; backend errors end in an error outcome
 //@   ensures[C18] no_panic: !panics
+//@   -- C18: whatever error the hasher answers with (a mismatch, an unreadable stored hash, a
+//@   -- failing backend), it never becomes a login
+//@   ensures[C18] hasher_error_outcome: each Hash.Compare(_, _) -> ?ce => ce != nil ==> (!emits Sess.Put(_, _) && !emits Fire("After", EventAuth, _, _, _))
 //@   ensures[C18] load_error_outcome: each Store.Load(_) -> (_, ?le) => (le != nil && le != ErrUserNotFound) ==>
 //@       (result == le && !emits Respond(_, _, _) && !emits Redirect(_) && !emits Sess.Put(_, _))
 //@
